@@ -31,7 +31,10 @@ fn r5_ratio(r: f64) -> Option<(usize, f64)> {
 fn r5_zone(r: f64, lon: f64, lat: f64) -> bool {
   let q = std::f64::consts::FRAC_PI_2;
   let dl = { let m = lon.rem_euclid(q); m.min(q - m) };
-  match r5_ratio(r) { Some((_, ratio)) => lat.abs() > TRANS_LAT && dl <= 0.15 && ratio > 0.95 && ratio < 1.0, None => false }
+  // the *cone* (not only its centre) comes within 0.15 rad in longitude of a seam meridian: at coarse depths the radius is
+  // itself larger than that band (first seen at depth 2, r = 0.18 rad, centre 0.18 rad from the seam)
+  let half_width = if lat.abs() + r >= q { std::f64::consts::PI } else { (r.sin() / lat.cos()).min(1.0).asin() };
+  match r5_ratio(r) { Some((_, ratio)) => lat.abs() > TRANS_LAT && dl <= 0.15 + half_width && ratio > 0.95 && ratio < 1.0, None => false }
 }
 
 /// R5 — best_starting_depth table too large at the thin Collignon cells next to polar-cap seams.
